@@ -232,8 +232,22 @@ def r12_2(ctx):
             else:
                 ctx.ok(1, pid)
     # who touches the pending table / who calls the set-up wrappers
+    import ast as _ast
+
     for g, n in index(repo).references("_pending"):
         if g.mod != APP:
+            continue
+        # only uses that can add, complete or remove an entry matter (reading the table for diagnostics does not)
+        touching = False
+        for q in _ast.walk(g.node):
+            if isinstance(q, _ast.Attribute) and q.value is n and q.attr in ("new", "pop", "clear", "update", "setdefault", "popitem", "__setitem__", "__delitem__"):
+                touching = True
+            if isinstance(q, _ast.Subscript) and q.value is n:
+                touching = True  # an entry is fetched (to be completed) or stored
+            if isinstance(q, (_ast.Assign, _ast.AugAssign)) and any(t is n for t in (q.targets if isinstance(q, _ast.Assign) else [q.target])):
+                touching = True
+        if not touching:
+            ctx.ok(1)
             continue
         ctx.require(g.short in ("ControllerApplication.__init__", "ControllerApplication._handle_frame_sent") or g.qual in _visited_send(ctx),
                     f"_pending:user:{g.short}", f"pending table used in {g.short}", func=g, node=n)
